@@ -20,6 +20,12 @@ CHECKS = {
          "6", "deviation-bounded exhaustive enumeration of (set-mode diff, target) with reference set/bag interpreter"),
  "C02": ("every diff of the pair universes x 8 option sets, every well-formed hunk shape built from the public DiffElement fields (singles, pairs, triples; strict-then-merge) and every BMP one-rune / special two-rune / YAML-ambiguous string payload: Render/ReadDiffString/Render text identity, structural identity of the re-read diff, colour = plain + ANSI only, and same effect of in-memory and re-read diff on every target of a fixed universe plus constructed witnesses",
          "6", "bounded-exhaustive enumeration of diffs / hunk sequences / payloads with differential (in-memory vs re-read) and reference-interpreter oracles"),
+ "C09": ("every list-mode diff of the universes (arrays in 4 placements, container elements, U_n, keys needing escaping / number-like / '-', edit graph): RenderPatch output parsed and evaluated by an independent RFC 6902/6901 implementation on a (must give b) and on every target within one edit of a where the native diff applies (same result); refusals only for inexpressible paths",
+         "6", "bounded-exhaustive enumeration of diffs and targets with independent RFC 6902 evaluator"),
+ "C11": ("all ordered pairs of null-free documents x {MERGE, SET+MERGE, MULTISET+MERGE}: RenderMerge text applied to a by the RFC 7386 pseudocode must give b under the reading",
+         "6", "bounded-exhaustive enumeration of pairs with RFC 7386 reference algorithm"),
+ "C12": ("all ordered (target, patch) pairs of a document universe with nulls and empty objects at every depth: ReadMergeString + Patch compared exactly with RFC 7386 MergePatch",
+         "6", "bounded-exhaustive enumeration of (target, patch) with RFC 7386 reference algorithm"),
 }
 NOT_YET = {}
 def main():
